@@ -71,3 +71,10 @@ reg("C19", "exploration", "TLA+ reference of KNX Data Secure CCM (AES-128, CBC-M
     "random keys, addresses, address types, frame formats, TPCI, SCF, sequence numbers, APDU lengths (boundary set quick, 0..240 thorough), both algorithms.",
     "Trusted: TLC's evaluator; the reference is anchored to external vectors at every run. Sampling, not exhaustive.",
     "DESIGN.md section 5 C19")
+
+reg("C17", "model_checking", "TLA+ spec DsSeq model-checked with TLC; trace validation of the real DataSecure with frames from three senders and sends near 2^48",
+    "DsSeq (last-valid-counter table, sending counter) is model-checked (delivered numbers strictly increase per sender, only known senders, sends within 48 bits); "
+    "random histories of genuine, replayed, reordered, MAC-forged, body-tampered, wrong-key and unknown-sender frames (produced by the real SecureData) and "
+    "outgoing frames with counters around 2^48-1 run on the real DataSecure; every trace (delivered or not, table entry afterwards, numbers sent, errors) must be a behaviour of the spec.",
+    "Trusted: TLC; the rank abstraction of 48-bit numbers (order-preserving); frames are built with xknx's own SecureData (its correctness is C15/C19).",
+    "DESIGN.md section 5 C17")
